@@ -225,6 +225,16 @@ class P(Prop):
                 out.append(self.mk_case("f-spatial-num", pts, 1, {"num": max(0.5, rng.uniform(L / 30, L * 1.1))}))
             else:
                 out.append(self.mk_case("f-npts", pts, rng.choice([1, 2]), None, rng.choice([None, 2, 3, 6, 11]), rng.choice([1, 2])))
+        # steps obtained by dividing the computed length / duration by a whole number (the everyday way of asking for n segments)
+        for _ in range(n // 3):
+            pts = self.rand_track(rng, lattice=rng.random() < 0.7)
+            k = rng.randrange(1, 400)
+            if rng.random() < 0.6:
+                L = self.float_len2d(pts)
+                if L > 0:
+                    out.append(self.mk_case("spatial-div", pts, 1, {"num": L / k}))
+            else:
+                out.append(self.mk_case("temporal-div", pts, 2, {"num": (abs_time(pts[-1][3]) - abs_time(pts[0][3])) / min(k, 60)}))
         # edges and errors (the model mirrors them; the oracle applies only where the property's preconditions hold)
         for _ in range(n // 6):
             pts = self.rand_track(rng, n=rng.choice([1, 1, 2, 3, 4]))
@@ -268,6 +278,21 @@ class P(Prop):
         if exact:
             return tot
         return sum(math.hypot(b[0] - a[0], b[1] - a[1]) for a, b in zip(pts, pts[1:]))
+
+    def float_len2d(self, pts):
+        """the 2D length as the code accumulates it in floats (S[i] = S[i-1] + sqrt(dx^2 + dy^2))"""
+        tot = 0
+        for a, b in zip(pts, pts[1:]):
+            tot = tot + math.sqrt((b[0] - a[0]) ** 2 + (b[1] - a[1]) ** 2)
+        return float(tot)
+
+    def overshoots(self, case):
+        """spatial mode, numeric step: the last abscissa int(L/ds)*ds, computed in floats, exceeds the float length L"""
+        d = case["delta"]
+        if case["mode"] != 1 or d is None or "num" not in d or not d["num"] > 0:
+            return False
+        L = self.float_len2d(case["pts"])
+        return int(L / d["num"]) * d["num"] > L
 
     def len3d_exact(self, pts):
         return all(is_sq(Fraction(b[0] - a[0]) ** 2 + Fraction(b[1] - a[1]) ** 2 + Fraction(b[2] - a[2]) ** 2) for a, b in zip(pts, pts[1:]))
@@ -571,6 +596,8 @@ class P(Prop):
         l = self.instants(case)
         if case["mode"] == 2 and l is not None and any(b < a for a, b in zip(l, l[1:])):
             return "unsorted-request-list"
+        if self.overshoots(case) and isinstance(impl_out, dict) and impl_out.get("err") == "err:index":
+            return "spatial-float-overshoot"
         return None
 
     # ------------------------------------------------------------------ shrinking / search
